@@ -518,7 +518,17 @@ func (f *SexpFloat) SexpString(ps *PrintState) string {
 	if f.Scientific {
 		return strconv.FormatFloat(f.Val, 'e', -1, SexpFloatSize)
 	}
-	return strconv.FormatFloat(f.Val, 'f', -1, SexpFloatSize)
+	s := strconv.FormatFloat(f.Val, 'f', -1, SexpFloatSize)
+	if !strings.ContainsAny(s, ".IN") {
+		// an integral value prints without a fraction and reads back as
+		// an integer; beyond the int64 range that text is not readable
+		// at all (1e22 printed as 10000000000000000000000), so use
+		// the exponent form there.
+		if _, err := strconv.ParseInt(s, 10, 64); err != nil {
+			return strconv.FormatFloat(f.Val, 'e', -1, SexpFloatSize)
+		}
+	}
+	return s
 }
 
 func (c *SexpChar) SexpString(ps *PrintState) string {
